@@ -205,7 +205,13 @@ example : gfxContent ["a", "b", "c"] 4 3 0 1 0 2 1 = [GRow.line "b" 1, GRow.line
 
 /-- ROWS AGREE. For every `_valid_size`, upscale flag and width: the number of rows a flow widget
     announces is the number of rows of the canvas it renders, which is the image's own height; the
-    canvas built for it has exactly that many lines. -/
+    canvas built for it has exactly that many lines.
+    `vs` is ONE function: both `rows()` and `render()` evaluate `_valid_size` in the *same, current*
+    environment (cell ratio, cell size, terminal size at the time of the call) — neither side may use a
+    value remembered from an earlier environment (e.g. from widget creation). The model has no widget
+    state for sizes, which is how the code is; the harness ties this by creating the widget under one
+    environment and calling `rows`/`render` under another (`envchange-*` cases), passing the model the
+    `_valid_size` values of the environment in force at the call. -/
 theorem rows_agree (vs : SizeReq → Int × Int) (fit : Bool) (c : Int) :
     widgetRows vs fit c = (flowSizes vs fit c).1.2 ∧ (flowSizes vs fit c).1.2 = (flowSizes vs fit c).2.2 ∧
       (flowSizes vs fit c).1.1 = c := by
